@@ -130,9 +130,9 @@ def run(ctx):
     sub = []
     for wid in wids[: (3 if not thorough else 10)]:
         sub.append(("only ./%s/..." % wid, flags, ["./%s/..." % wid], wid + "/"))
-    sub.append(("only ./hot/h3/... (its dependency hb unnamed)", flags, ["./hot/h3/..."], "hot/h3"))
-    sub.append(("only ./tv/kv/... (test variants, without the other importer)", flags, ["./tv/kv/..."], "tv/kv"))
-    sub.append(("only ./tv/usekv/...", flags, ["./tv/usekv/..."], "tv/usekv"))
+    sub.append(("only ./hot/h3/... (its dependency hb unnamed)", flags, ["./hot/h3/..."], "hot/h3/"))
+    sub.append(("only ./tv/kv/... (test variants, without the other importer)", flags, ["./tv/kv/..."], "tv/kv/"))
+    sub.append(("only ./tv/usekv/...", flags, ["./tv/usekv/..."], "tv/usekv/"))
     for name, fl, pats, prefix in sub:
         x = lib.run_binary(ctx, root, flags=fl, patterns=pats, timeout=900)
         norm = normalise(x["stdout"], root)
